@@ -281,6 +281,27 @@ def decoder_leading_bytes(ctx, dec, msg, cell):
             ctx.violate('dec/values-differ/leading-bytes', 'decoded %s differ with bytes before BUFR: %r' % (d[1], jsonable(d[2:])), spec)
 
 
+def decoder_signatures(ctx, dec, msg, cell):
+    """the span runs from BUFR to 7777: a message whose end section is not 7777 is refused - also by a decoder that has served a
+    lenient (ignore_value_expectation=True) call before"""
+    try:
+        dec.process(msg.bytes, ignore_value_expectation=True)
+        dec.process(msg.bytes[:-4] + b'7767', ignore_value_expectation=True)
+        ctx.count('lenient_decodes')
+    except Exception:
+        ctx.count('lenient_decode_raises')
+    for tag, bad in (('stop', msg.bytes[:-4] + b'77XY' + b'\0\0'), ('stop', msg.bytes[:-1] + b'8')):
+        spec = dict(side='decoder-signature', ids=msg.ids, edition=msg.edition, cell=cell, hex=bad.hex())
+        ctx.evaluated(('dec-signature', bad[-6:].hex()) + tuple(cell), True)
+        ctx.count('dec_bad_stop_signature')
+        try:
+            m = dec.process(bad)
+            ctx.violate('dec/damaged-stop-signature-accepted', 'a message ending %r instead of 7777 was decoded without error (serialized_bytes ends %r)'
+                        % (bad[len(msg.bytes) - 4:len(msg.bytes)], (m.serialized_bytes or b'')[-4:]), spec)
+        except Exception:
+            ctx.count('dec_bad_stop_signature_refused')
+
+
 def decoder_wrong_total(ctx, dec, msg, cell):
     """the message's bytes are the span from BUFR to 7777 (what the sections occupy) whatever follows - also when the
     total-length field of section 0 does not agree with that span (the decoder does not use that field in a full decode)"""
@@ -412,6 +433,7 @@ def run(ctx):
                 decoder_short(ctx, dec, msg, cell)
                 decoder_wrong_total(ctx, dec, msg, cell)
                 decoder_leading_bytes(ctx, dec, msg, cell)
+                decoder_signatures(ctx, dec, msg, cell)
     # random richer messages (multi-subset, compressed, long section 2)
     k = 0
     quota = 150 if ctx.quick else 2500
